@@ -160,6 +160,7 @@ def par_4(ctx, rep):
             return 'leaf'
         return None
     n_sites = 0
+    parts = {cat: ctx.parts_of(keys) for cat, keys in allowed.items()}      # private helpers those functions were split into
     for f in prog.funcs.values():
         for site in ctx.cg.sites[f.key]:
             call = site.node
@@ -178,7 +179,7 @@ def par_4(ctx, rep):
                 if cat is None:
                     continue
                 n_sites += 1
-                ok = f.key in allowed[cat]
+                ok = f.key in allowed[cat] or f.key in parts[cat]
                 rep.ob('PAR-4', f.mod.rel, f.qual, '%s(...) [%s]' % (c.name, cat), ok,
                        '%s %s constructed outside %s' % (cat, c.name, sorted(q for _, q in allowed[cat])))
     rep.minimum('PAR-4', 12)
@@ -1192,3 +1193,39 @@ def par_13(ctx, rep):
     rep.ob('PAR-13', BASE, parse.qual, 'parse does not recurse', parse.key not in cg.reachable(list(cg.edges.get(parse.key, ()))) ,
            'the driver loop is re-entered recursively')
     rep.minimum('PAR-13', 2)
+
+
+# ---------------------------------------------------------------------------------------------------------------
+# PAR-14  the INDENT / DEDENT bookkeeping of the recovering parser sees every token of the stream exactly once
+def par_14(ctx, rep):
+    rep.rule('PAR-14', 'the function that counts INDENT / DEDENT tokens for error recovery (self.<counter> += 1 / -= 1 under a test '
+                       'of the token type) is not reachable from Parser.error_recovery: recovery feeds tokens to the engine a '
+                       'second time (self._add_token(token)), and a token counted twice desynchronises the list of dedents to omit')
+    prog = ctx.prog
+    er = prog.func(PY, 'Parser.error_recovery')
+    counters = []
+    for f in prog.funcs.values():
+        if f.mod.rel != PY:
+            continue
+        ups = downs = 0
+        for n in walk_own(f.node):
+            if isinstance(n, ast.AugAssign) and isinstance(n.target, ast.Attribute) and norm(n.target.value) == 'self' \
+                    and isinstance(n.value, ast.Constant) and n.value.value == 1:
+                ups += isinstance(n.op, ast.Add)
+                downs += isinstance(n.op, ast.Sub)
+            if isinstance(n, ast.Assign) and len(n.targets) == 1 and isinstance(n.targets[0], ast.Attribute) \
+                    and norm(n.targets[0].value) == 'self' and isinstance(n.value, ast.BinOp) \
+                    and norm(n.value.left) == norm(n.targets[0]) and norm(n.value.right) == '1':
+                ups += isinstance(n.value.op, ast.Add)
+                downs += isinstance(n.value.op, ast.Sub)
+        mentions = {norm(x) for x in walk_own(f.node) if isinstance(x, (ast.Name, ast.Attribute))}
+        if ups and downs and any(m.split('.')[-1] in ('INDENT', 'DEDENT') for m in mentions):
+            counters.append(f)
+    if not counters:
+        raise AnalysisError('PAR-14: no INDENT / DEDENT counting function found in parso/python/parser.py')
+    reach = ctx.cg.reachable([er])
+    for f in counters:
+        rep.ob('PAR-14', PY, f.qual, 'INDENT / DEDENT counting is outside the reach of error_recovery', f.key not in reach,
+               '%s counts INDENT / DEDENT tokens and is called (directly or indirectly) by error_recovery, which re-feeds the '
+               'token it recovered on: that token is counted a second time' % f.qual)
+    rep.stat('par14_counting_functions', [f.qual for f in counters])
